@@ -97,6 +97,8 @@ class ArrayGen:
         cap = rng.randint(1, 9)
         ex = rng.choice(FACTORS)
         ops = [f"new cap={cap} exp={ex}"]
+        if rng.random() < 0.12:
+            ops = ["new_default"]      # C-library allocator triple (capacity 8, factor 2)
         L = {0: []}                    # ideal content per live slot
         it = None                      # [slot, pos, removed, fresh]  fresh: directly after a yield
         zit = None                     # [s1, s2, pos, removed, fresh]
